@@ -16,6 +16,7 @@ import (
 
 	"verif/checks"
 	"verif/sim/core"
+	"verif/sim/sched"
 	"verif/sim/tape"
 )
 
@@ -38,6 +39,18 @@ func main() {
 			os.Exit(2)
 		}
 		os.Exit(core.RunReplay(c, rf))
+	case "racecheck":
+		// self-test of the race oracle (race build only)
+		if !sched.RaceBuild {
+			fmt.Println("FATAL racecheck needs the -race build")
+			os.Exit(2)
+		}
+		clean, hits := sched.SelfCheck(200)
+		fmt.Printf("race oracle self-test: correctly locked workload: %d reports in 200 seeds (must be 0); one unlocked access: reported in %d of 200 seeds (must be >= 150)\n", clean, hits)
+		if clean != 0 || hits < 150 {
+			os.Exit(2)
+		}
+		os.Exit(0)
 	case "sigs":
 		// verif sigs <id> <seed> <runs> [tier]: one line per run with everything
 		// that must be a pure function of the tape (determinism self-test)
